@@ -196,6 +196,12 @@ func (fc *FnCtx) specialCall(ins ssa.Instruction, callee *ssa.Function, cc *ssa.
 		model("strings.Index = str.indexof")
 		one(fmt.Sprintf("(str.indexof %s %s 0)", args[0].t, args[1].t), tInt)
 		return true
+	case "strings.LastIndex":
+		model("strings.LastIndex: -1 iff not contained, otherwise an index at which the substring fits")
+		r := g.fresh(fc.prefix+"lastindex", "Int")
+		fc.assume(fmt.Sprintf("(and (>= %s (- 1)) (<= (+ %s (str.len %s)) (str.len %s)) (= (= %s (- 1)) (not (str.contains %s %s))))", r, r, args[1].t, args[0].t, r, args[0].t, args[1].t), "strings.LastIndex")
+		setResult([]Val{{t: r, ty: tInt}})
+		return true
 	case "strings.Split":
 		if sep, ok := constString(cc.Args[1]); ok && len(sep) == 1 {
 			model("strings.Split(s, c) for a one-character constant c: element count = occurrences+1; the two-part case is exact")
@@ -246,6 +252,7 @@ func identTerm(t string) string {
 // splitModel: strings.Split(s, c) with a one-character separator.
 func (fc *FnCtx) splitModel(ins ssa.Instruction, s Val, sep string, setResult func([]Val)) {
 	g := fc.g
+	g.markAlloc(types.NewSlice(tString))
 	r := fc.newRef()
 	k := g.arrKey(tString)
 	arr := g.fresh("split.arr", "(Array Int String)")
